@@ -1,7 +1,1174 @@
-//! actobs — coverage-gap closing harness (see the worker task); implementation side.
+//! actobs — actor-model presentation and glue (coverage-gap closing, DESIGN §13c); implementation side.
+//!
+//! Sections (every input is generated from `Rng::new(seed())`):
+//! 1. `ActorModel::format_action`, `format_step`, `as_svg` on random `TableActor` systems (timers, random choices,
+//!    lossy networks, crash budgets, named actors): the text is EXACTLY what the handler table gives (V-laws), plus
+//!    structural laws of the SVG and the relation to `next_state`.
+//! 2. `Serialize for ActorModelState`: a struct `ActorModelState` with the fields `actor_states`, `network`,
+//!    `is_timer_set`, `random_choices`, `history` (in this order, `crashed` is not serialised), each serialised by
+//!    its own impl.
+//! 3. `Network::names` / `FromStr` (model `net-names`, `net-parse`; oracle `o-net-names`).
+//! 4. actor.rs glue: default handlers, `name()` of `Choice`, `()`, `Vec<..>`, `Id::vec_from`, `majority`,
+//!    `peer_ids`, `model_peers`, `model_timeout`, `Out` helpers, `Timers::default`.
+//! 5. register / write-once-register client arms (`client-start` model + oracle; `name()`; no-op arms).
+//! 6. ordered-reliable-link `TimerWrapper::User` on states built through `on_start` / `on_msg`.
+use choice::{Choice, Never};
+use serde::ser::{Impossible, SerializeStruct};
+use serde::Serialize;
+use serde_json::Value;
 use srh::out::*;
+use srh::rng::Rng;
+use srh::sx;
+use srh::table_actor::*;
+use stateright::actor::ordered_reliable_link::{ActorWrapper, MsgWrapper, TimerWrapper};
+use stateright::actor::register::{RegisterActor, RegisterActorState, RegisterMsg};
+use stateright::actor::write_once_register::{WORegisterActor, WORegisterActorState, WORegisterMsg};
+use stateright::actor::{
+    majority, model_peers, model_timeout, peer_ids, Actor, ActorModel, ActorModelAction, ActorModelState, Command,
+    Id, Network, Out as AOut, Timers,
+};
+use stateright::{Model, Path};
+use std::borrow::Cow;
+use std::collections::{BTreeMap, HashMap};
+use std::fmt::Display;
+use std::panic::{catch_unwind, AssertUnwindSafe};
+use std::sync::Arc;
+use std::time::Duration;
+
+type Act = ActorModelAction<TMsg, TTimer, TRandom>;
+type RM = RegisterMsg<u64, char, u8>;
+type WM = WORegisterMsg<u64, char, u8>;
+
+// ---------------------------------------------------------------------------------------------------------
+// a table actor with a chosen name (`TableActor::name()` is fixed)
+
+#[derive(Clone, Debug)]
+struct Named<M> {
+    inner: TableActor<M>,
+    name: String,
+}
+impl<M: Code> Actor for Named<M> {
+    type Msg = M;
+    type State = TState;
+    type Timer = TTimer;
+    type Random = TRandom;
+    fn on_start(&self, id: Id, o: &mut AOut<Self>) -> TState {
+        let mut oo = AOut::<TableActor<M>>::new();
+        let s = self.inner.on_start(id, &mut oo);
+        o.append(&mut oo);
+        s
+    }
+    fn on_msg(&self, id: Id, state: &mut Cow<TState>, src: Id, msg: M, o: &mut AOut<Self>) {
+        let mut oo = AOut::<TableActor<M>>::new();
+        self.inner.on_msg(id, state, src, msg, &mut oo);
+        o.append(&mut oo);
+    }
+    fn on_timeout(&self, id: Id, state: &mut Cow<TState>, timer: &TTimer, o: &mut AOut<Self>) {
+        let mut oo = AOut::<TableActor<M>>::new();
+        self.inner.on_timeout(id, state, timer, &mut oo);
+        o.append(&mut oo);
+    }
+    fn on_random(&self, id: Id, state: &mut Cow<TState>, random: &TRandom, o: &mut AOut<Self>) {
+        let mut oo = AOut::<TableActor<M>>::new();
+        self.inner.on_random(id, state, random, &mut oo);
+        o.append(&mut oo);
+    }
+    fn name(&self) -> String {
+        self.name.clone()
+    }
+}
+const NAMES: [&str; 5] = ["", "table", "n", "Server", "a-rather-long-actor-name-xyz"];
+fn gen_name(r: &mut Rng) -> String {
+    NAMES[r.below(NAMES.len())].to_string()
+}
+
+/// an actor that overrides nothing but `on_start`
+#[derive(Clone, Debug)]
+struct Inert(u8);
+impl Actor for Inert {
+    type Msg = TMsg;
+    type State = TState;
+    type Timer = TTimer;
+    type Random = TRandom;
+    fn on_start(&self, _: Id, _: &mut AOut<Self>) -> TState {
+        TState(self.0)
+    }
+}
+
+// ---------------------------------------------------------------------------------------------------------
+// the documented pieces of the texts
+
+fn cmd_dbg(c: &TCmd) -> String {
+    match c {
+        TCmd::Send(d, m) => format!("Send(Id({}), TMsg({}))", d, m),
+        TCmd::SetTimer(t) => format!("SetTimer(TTimer({}), 0ns..0ns)", t),
+        TCmd::CancelTimer(t) => format!("CancelTimer(TTimer({}))", t),
+        TCmd::ChooseRandom(k, cs) => format!(
+            "ChooseRandom(\"k{}\", [{}])",
+            k,
+            cs.iter().map(|c| format!("TRandom({})", c)).collect::<Vec<_>>().join(", ")
+        ),
+    }
+}
+fn out_dbg(cmds: &[TCmd]) -> String {
+    format!("[{}]", cmds.iter().map(cmd_dbg).collect::<Vec<_>>().join(", "))
+}
+fn pretty_state(s: u8) -> String {
+    format!("TState(\n    {},\n)", s)
+}
+/// `ActorStep`'s `Display`: OUT line, blank line, then NEXT_STATE/PREV_STATE or UNCHANGED
+fn step_text(prev: u8, row: Option<&Row>) -> String {
+    let (ns, cmds): (Option<u8>, &[TCmd]) = match row {
+        None => (None, &[]),
+        Some(r) => (r.ns, &r.cmds),
+    };
+    match ns {
+        Some(n) => format!("OUT: {}\n\nNEXT_STATE: {}\n\nPREV_STATE: {}\n", out_dbg(cmds), pretty_state(n), pretty_state(prev)),
+        None => format!("OUT: {}\n\nUNCHANGED: {}\n", out_dbg(cmds), pretty_state(prev)),
+    }
+}
+fn row_for<'a>(tab: &'a Table, st: u8, a: &Act) -> Option<&'a Row> {
+    match a {
+        ActorModelAction::Deliver { src, msg, .. } => tab.msg.get(&(st, usize::from(*src), msg.0)),
+        ActorModelAction::Timeout(_, t) => tab.timeout.get(&(st, t.0)),
+        ActorModelAction::SelectRandom { random, .. } => tab.random.get(&(st, random.0)),
+        _ => None,
+    }
+}
+fn acting(a: &Act) -> Option<usize> {
+    match a {
+        ActorModelAction::Deliver { dst, .. } => Some(usize::from(*dst)),
+        ActorModelAction::Timeout(id, _) | ActorModelAction::Crash(id) => Some(usize::from(*id)),
+        ActorModelAction::SelectRandom { actor, .. } => Some(usize::from(*actor)),
+        ActorModelAction::Drop(_) => None,
+    }
+}
+fn kind_name(a: &Act) -> &'static str {
+    match a {
+        ActorModelAction::Deliver { .. } => "deliver",
+        ActorModelAction::Drop(_) => "drop",
+        ActorModelAction::Timeout(..) => "timeout",
+        ActorModelAction::Crash(_) => "crash",
+        ActorModelAction::SelectRandom { .. } => "select-random",
+    }
+}
+fn expected_format_action(a: &Act) -> String {
+    match a {
+        ActorModelAction::Deliver { src, dst, msg } => {
+            format!("Id({}) → TMsg({}) → Id({})", usize::from(*src), msg.0, usize::from(*dst))
+        }
+        ActorModelAction::SelectRandom { actor, random, .. } => {
+            format!("Id({}) select random TRandom({})", usize::from(*actor), random.0)
+        }
+        ActorModelAction::Drop(e) => format!(
+            "Drop(Envelope {{ src: Id({}), dst: Id({}), msg: TMsg({}) }})",
+            usize::from(e.src), usize::from(e.dst), e.msg.0
+        ),
+        ActorModelAction::Timeout(id, t) => format!("Timeout(Id({}), TTimer({}))", usize::from(*id), t.0),
+        ActorModelAction::Crash(id) => format!("Crash(Id({}))", usize::from(*id)),
+    }
+}
+/// `format_step` as the code documents it, from the handler table alone
+fn expected_format_step(tables: &[Arc<Table>], st: &ActorModelState<Named<TMsg>, Hist>, a: &Act) -> Option<String> {
+    match a {
+        ActorModelAction::Drop(e) => Some(format!(
+            "DROP: Envelope {{ src: Id({}), dst: Id({}), msg: TMsg({}) }}",
+            usize::from(e.src), usize::from(e.dst), e.msg.0
+        )),
+        _ => {
+            let i = acting(a).unwrap();
+            let prev = st.actor_states.get(i)?.0;
+            match a {
+                ActorModelAction::Crash(_) => Some(step_text(prev, None)),
+                _ => Some(step_text(prev, row_for(&tables[i], prev, a))),
+            }
+        }
+    }
+}
+
+struct StepInfo {
+    a: Act,
+    /// sends of the handler that ran (table order)
+    sends: Vec<(usize, u8)>,
+}
+/// the sequence diagram as the code documents it
+fn expected_svg(names: &[String], n_states: usize, steps: &[StepInfo]) -> String {
+    let labels: Vec<String> = names.iter().enumerate().map(|(i, n)| if n.is_empty() { i.to_string() } else { format!("{} {}", i, n) }).collect();
+    let spacing = std::cmp::max(100, labels.iter().map(|l| l.len() as u64).max().unwrap_or(0) * 10);
+    let plot = |x: usize, y: usize| (x as u64 * spacing, y as u64 * 30);
+    let plen = steps.len() + 1;
+    let (w, h) = plot(n_states, plen);
+    let w = w + 300;
+    let mut s = format!(
+        "<svg version='1.1' baseProfile='full' width='{}' height='{}' viewbox='-20 -20 {} {}' xmlns='http://www.w3.org/2000/svg'>",
+        w, h, w + 20, h + 20
+    );
+    s.push_str("<defs><marker class='svg-event-shape' id='arrow' markerWidth='12' markerHeight='10' refX='12' refY='5' orient='auto'><polygon points='0 0, 12 5, 0 10' /></marker></defs>");
+    for (i, l) in labels.iter().enumerate() {
+        let (x1, y1) = plot(i, 0);
+        let (x2, y2) = plot(i, plen);
+        s.push_str(&format!("<line x1='{}' y1='{}' x2='{}' y2='{}' class='svg-actor-timeline' />\n", x1, y1, x2, y2));
+        s.push_str(&format!("<text x='{}' y='{}' class='svg-actor-label'>{}</text>\n", x1, y1, l));
+    }
+    let mut send_time: HashMap<(usize, usize, u8), usize> = HashMap::new();
+    for (k, st) in steps.iter().enumerate() {
+        let time = k + 1;
+        match &st.a {
+            ActorModelAction::Deliver { src, dst, msg } => {
+                let (src, dst) = (usize::from(*src), usize::from(*dst));
+                let t0 = *send_time.get(&(src, dst, msg.0)).unwrap_or(&0);
+                let (x1, y1) = plot(src, t0);
+                let (x2, y2) = plot(dst, time);
+                s.push_str(&format!("<line x1='{}' x2='{}' y1='{}' y2='{}' marker-end='url(#arrow)' class='svg-event-line' />\n", x1, x2, y1, y2));
+                for (d, m) in &st.sends { send_time.insert((dst, *d, *m), time); }
+            }
+            ActorModelAction::Drop(_) => {}
+            other => {
+                let i = acting(other).unwrap();
+                let (x, y) = plot(i, time);
+                s.push_str(&format!("<circle cx='{}' cy='{}' r='10' class='svg-event-shape' />\n", x, y));
+                for (d, m) in &st.sends { send_time.insert((i, *d, *m), time); }
+            }
+        }
+    }
+    for (k, st) in steps.iter().enumerate() {
+        let time = k + 1;
+        let (i, text) = match &st.a {
+            ActorModelAction::Deliver { dst, msg, .. } => (usize::from(*dst), format!("TMsg({})", msg.0)),
+            ActorModelAction::Timeout(id, t) => (usize::from(*id), format!("Timeout(TTimer({}))", t.0)),
+            ActorModelAction::Crash(id) => (usize::from(*id), "Crash".to_string()),
+            ActorModelAction::SelectRandom { actor, random, .. } => (usize::from(*actor), format!("Random(TRandom({}))", random.0)),
+            ActorModelAction::Drop(_) => continue,
+        };
+        let (x, y) = plot(i, time);
+        s.push_str(&format!("<text x='{}' y='{}' class='svg-event-label'>{}</text>\n", x, y, text));
+    }
+    s.push_str("</svg>\n");
+    s
+}
+fn count(hay: &str, needle: &str) -> usize {
+    hay.matches(needle).count()
+}
+fn first_diff(a: &str, b: &str) -> String {
+    let i = a.bytes().zip(b.bytes()).position(|(x, y)| x != y).unwrap_or(a.len().min(b.len()));
+    let cut = |s: &str| { let lo = i.saturating_sub(30); let lo = (0..=lo).rev().find(|k| s.is_char_boundary(*k)).unwrap_or(0);
+        let hi = (i + 50).min(s.len()); let hi = (hi..=s.len()).find(|k| s.is_char_boundary(*k)).unwrap_or(s.len()); s[lo..hi].to_string() };
+    format!("at byte {}: got ...{}... expected ...{}...", i, cut(a), cut(b))
+}
+
+// ---------------------------------------------------------------------------------------------------------
+// section 1 + 2: presentation of random systems
+
+fn present_system(out: &mut Out, r: &mut Rng, spec: &SysSpec, bound: usize, max_pairs: usize, n_paths: usize, sample: bool) {
+    let names: Vec<String> = spec.tables.iter().map(|_| gen_name(r)).collect();
+    let actors: Vec<Named<TMsg>> = spec.tables.iter().zip(&names).map(|(t, n)| Named { inner: TableActor::new(t.clone(), None), name: n.clone() }).collect();
+    let model = spec.model(actors);
+    let sxs = format!("{} names {:?}", spec.to_sx(&[]), names);
+    let g = explore(&model, bound, &tstate_sx, None);
+    out.stat(&format!("net-{}", spec.kind.name()));
+    out.stat(if spec.lossy { "lossy-yes" } else { "lossy-no" });
+    out.stat(&format!("max-crashes-{}", spec.max_crashes));
+    out.stat(&format!("actors-{}", spec.tables.len()));
+    if sample { out.sample(&format!("system {} -> {} states, {} transitions", sxs, g.states.len(), g.transitions())); }
+    let n = spec.tables.len();
+
+    // (state, action) pairs: enabled ones of the walk + wild ones (ids out of range, actions that are not enabled)
+    let mut pairs: Vec<(usize, Act, bool)> = Vec::new();
+    for (i, rec) in g.records.iter().enumerate() {
+        for t in rec { pairs.push((i, mk_action(&t.action_key), true)); }
+    }
+    r.shuffle(&mut pairs);
+    pairs.truncate(max_pairs);
+    let n_wild = (pairs.len() / 6).max(4);
+    for _ in 0..n_wild {
+        if g.records.is_empty() { break; }
+        let i = r.below(g.records.len());
+        let k: Vec<u64> = match r.below(5) {
+            0 => vec![0, r.below(n + 1) as u64, r.below(n + 2) as u64, r.below(3) as u64],
+            1 => vec![1, r.below(n + 1) as u64, r.below(n + 2) as u64, r.below(3) as u64],
+            2 => vec![2, r.below(n + 2) as u64, r.below(3) as u64],
+            3 => vec![3, r.below(n + 2) as u64],
+            _ => vec![4, r.below(n + 2) as u64, r.below(2) as u64, r.below(3) as u64],
+        };
+        pairs.push((i, mk_action(&k), false));
+    }
+    let mut nontrivial = false;
+    for (i, a, enabled) in &pairs {
+        let st = &g.raw[*i];
+        let kind = kind_name(a);
+        let tag = if *enabled { "" } else { "wild-" };
+        // format_action
+        let fa = catch_unwind(AssertUnwindSafe(|| model.format_action(a)));
+        let efa = expected_format_action(a);
+        match fa {
+            Ok(t) if t == efa => out.stat(&format!("format-action-{}{}", tag, kind)),
+            Ok(t) => out.v("format-action", &format!("system {} action {}: got {:?} expected {:?}", sxs, action_sx(a), t, efa)),
+            Err(_) => out.v("format-action-panic", &format!("system {} action {}", sxs, action_sx(a))),
+        }
+        // format_step
+        let fs = catch_unwind(AssertUnwindSafe(|| model.format_step(st, a.clone())));
+        let efs = expected_format_step(&spec.tables, st, a);
+        let fs = match fs {
+            Ok(x) => x,
+            Err(_) => { out.v("format-step-panic", &format!("system {} state {} action {}", sxs, g.states[*i], action_sx(a))); continue; }
+        };
+        if fs != efs {
+            out.v("format-step", &format!("system {} state {} action {}: got {:?} expected {:?}", sxs, g.states[*i], action_sx(a), fs, efs));
+        }
+        if let Some(t) = &fs {
+            if t.contains("NEXT_STATE") { out.stat(&format!("format-step-{}{}-next-state", tag, kind)); nontrivial = true; }
+            else if t.starts_with("DROP") { out.stat(&format!("format-step-{}{}", tag, kind)); }
+            else { out.stat(&format!("format-step-{}{}-unchanged", tag, kind)); }
+            if t.contains("Send(") { out.stat("format-step-with-sends"); }
+        } else {
+            out.stat(&format!("format-step-{}{}-none", tag, kind));
+        }
+        // relation to next_state
+        let ns = catch_unwind(AssertUnwindSafe(|| model.next_state(st, a.clone())));
+        match (&ns, &fs) {
+            (Ok(Some(s2)), Some(t)) => {
+                out.stat("next-some-step-some");
+                // the text's NEXT_STATE / UNCHANGED is the successor's state of the acting actor; nobody else moved
+                let who = acting(a);
+                for j in 0..st.actor_states.len() {
+                    let (before, after) = (st.actor_states[j].0, s2.actor_states[j].0);
+                    if Some(j) == who {
+                        let want = if t.contains("NEXT_STATE") { format!("NEXT_STATE: {}\n", pretty_state(after)) } else { format!("UNCHANGED: {}\n", pretty_state(after)) };
+                        if !t.contains(&want) || (!t.contains("NEXT_STATE") && before != after) {
+                            out.v("format-step-vs-next-state", &format!("system {} state {} action {}: text {:?} but successor actor state {}", sxs, g.states[*i], action_sx(a), t, after));
+                        }
+                    } else if before != after {
+                        out.v("format-step-vs-next-state", &format!("system {} state {} action {}: actor {} moved", sxs, g.states[*i], action_sx(a), j));
+                    }
+                }
+            }
+            (Ok(Some(_)), None) => out.v("format-step-none-but-step-exists", &format!("system {} state {} action {}", sxs, g.states[*i], action_sx(a))),
+            (Ok(None), Some(_)) => out.stat(&format!("next-none-step-some-{}{}", tag, kind)),
+            (Ok(None), None) => out.stat(&format!("next-none-step-none-{}{}", tag, kind)),
+            (Err(_), Some(_)) => out.stat(&format!("next-panic-step-some-{}{}", tag, kind)),
+            (Err(_), None) => out.stat(&format!("next-panic-step-none-{}{}", tag, kind)),
+        }
+        // `None` exactly for an acting actor that does not exist
+        let exists = acting(a).map_or(true, |j| j < st.actor_states.len());
+        if fs.is_some() != exists {
+            out.v("format-step-some-iff-actor-exists", &format!("system {} state {} action {}: Some={} exists={}", sxs, g.states[*i], action_sx(a), fs.is_some(), exists));
+        }
+    }
+    if nontrivial { out.distinct(&("present", &sxs)); }
+
+    // serialisation of reachable states (section 2)
+    let mut idx: Vec<usize> = (0..g.raw.len()).collect();
+    r.shuffle(&mut idx);
+    for i in idx.into_iter().take(6) { serialize_case(out, &sxs, &g.states[i], &g.raw[i]); }
+
+    // random paths -> as_svg
+    let inits = model.init_states();
+    for p in 0..n_paths {
+        let want_len = if p == 0 { 0 } else { 1 + r.below(if thorough() { 30 } else { 14 }) };
+        let mut cur = inits[0].clone();
+        let mut steps: Vec<StepInfo> = Vec::new();
+        let mut seen: Vec<&'static str> = Vec::new();
+        for _ in 0..want_len {
+            let mut acts = Vec::new();
+            model.actions(&cur, &mut acts);
+            let mut cands: Vec<(Act, ActorModelState<Named<TMsg>, Hist>)> = acts.into_iter()
+                .filter_map(|a| catch_unwind(AssertUnwindSafe(|| model.next_state(&cur, a.clone()))).ok().flatten().map(|s| (a, s))).collect();
+            if cands.is_empty() { break; }
+            // prefer a kind this path has not shown yet
+            let fresh: Vec<usize> = (0..cands.len()).filter(|k| !seen.contains(&kind_name(&cands[*k].0))).collect();
+            let k = if !fresh.is_empty() && r.chance(3, 4) { *r.pick(&fresh) } else { r.below(cands.len()) };
+            let (a, s2) = cands.swap_remove(k);
+            if !seen.contains(&kind_name(&a)) { seen.push(kind_name(&a)); }
+            let sends = match acting(&a) {
+                Some(i) if !matches!(a, ActorModelAction::Crash(_)) => row_for(&spec.tables[i], cur.actor_states[i].0, &a)
+                    .map(|row| row.cmds.iter().filter_map(|c| if let TCmd::Send(d, m) = c { Some((*d, *m)) } else { None }).collect()).unwrap_or_default(),
+                _ => Vec::new(),
+            };
+            steps.push(StepInfo { a, sends });
+            cur = s2;
+        }
+        let actions: Vec<Act> = steps.iter().map(|s| s.a.clone()).collect();
+        let path = catch_unwind(AssertUnwindSafe(|| Path::from_actions(&model, inits[0].clone(), actions.iter())));
+        let path = match path {
+            Ok(Some(p)) => p,
+            _ => { out.v("path-from-actions", &format!("system {} actions {}: a walked path could not be rebuilt", sxs, sx::list(actions.iter().map(action_sx)))); continue; }
+        };
+        let svg = catch_unwind(AssertUnwindSafe(|| model.as_svg(path)));
+        let ptxt = sx::list(actions.iter().map(action_sx));
+        let svg = match svg {
+            Ok(Some(s)) => s,
+            Ok(None) => { out.v("as-svg-none", &format!("system {} path {}", sxs, ptxt)); continue; }
+            Err(_) => { out.v("as-svg-panic", &format!("system {} path {}", sxs, ptxt)); continue; }
+        };
+        out.stat("svg-paths");
+        out.stat(&format!("svg-path-kinds-{}", seen.len()));
+        if steps.is_empty() { out.stat("svg-path-length-0"); }
+        out.stat_n("svg-path-steps", steps.len() as u64);
+        let cnt = |k: &str| steps.iter().filter(|s| kind_name(&s.a) == k).count();
+        let (nd, nx, nt, nc, nr) = (cnt("deliver"), cnt("drop"), cnt("timeout"), cnt("crash"), cnt("select-random"));
+        // structural laws
+        let mut bad = Vec::new();
+        if !(svg.starts_with("<svg ") && svg.ends_with("</svg>\n") && count(&svg, "<svg") == 1 && count(&svg, "</svg>") == 1) { bad.push("not one balanced <svg>..</svg>".to_string()); }
+        if count(&svg, "class='svg-actor-label'") != n || count(&svg, "class='svg-actor-timeline'") != n { bad.push("not one lifeline and label per actor".into()); }
+        for (i, nm) in names.iter().enumerate() {
+            let l = if nm.is_empty() { format!("class='svg-actor-label'>{}</text>", i) } else { format!("class='svg-actor-label'>{} {}</text>", i, nm) };
+            if count(&svg, &l) != 1 { bad.push(format!("label of actor {} missing", i)); }
+        }
+        if count(&svg, "class='svg-event-line'") != nd { bad.push(format!("{} arrows for {} deliveries", count(&svg, "class='svg-event-line'"), nd)); }
+        if count(&svg, "<circle") != nt + nc + nr { bad.push(format!("{} markers for {} timeout/crash/random steps", count(&svg, "<circle"), nt + nc + nr)); }
+        if count(&svg, "class='svg-event-label'") != nd + nt + nc + nr { bad.push("not one event label per non-drop step".into()); }
+        if count(&svg, ">Crash</text>") != nc || count(&svg, ">Timeout(") != nt || count(&svg, ">Random(") != nr { bad.push("labels per kind".into()); }
+        if !svg.contains(&format!(" height='{}' ", 30 * (steps.len() + 1))) { bad.push("height is not 30 per row".into()); }
+        if count(&svg, "<text") != count(&svg, "</text>") || count(&svg, "<defs>") != 1 || count(&svg, "</defs>") != 1 { bad.push("unbalanced text/defs".into()); }
+        if !bad.is_empty() { out.v("as-svg-structure", &format!("system {} path {}: {}", sxs, ptxt, bad.join("; "))); }
+        let _ = nx;
+        // exact law
+        let exp = expected_svg(&names, cur.actor_states.len(), &steps);
+        if svg != exp { out.v("as-svg-text", &format!("system {} path {}: {}", sxs, ptxt, first_diff(&svg, &exp))); }
+        // an arrow that starts at the send row of its message
+        if svg.contains("marker-end") && steps.iter().any(|s| !s.sends.is_empty()) { out.stat("svg-paths-with-tracked-sends"); }
+        if steps.len() >= 3 { out.distinct(&("svg", &sxs, &ptxt)); }
+        if sample && p == 1 { out.sample(&format!("svg path {} ({} bytes)", ptxt, svg.len())); }
+    }
+}
+
+// ---------------------------------------------------------------------------------------------------------
+// section 2: a top-level serializer that records the struct shape and serialises every field on its own
+
+#[derive(Debug)]
+struct SerErr(String);
+impl Display for SerErr {
+    fn fmt(&self, f: &mut std::fmt::Formatter<'_>) -> std::fmt::Result { write!(f, "{}", self.0) }
+}
+impl std::error::Error for SerErr {}
+impl serde::ser::Error for SerErr {
+    fn custom<T: Display>(m: T) -> Self { SerErr(m.to_string()) }
+}
+#[derive(Default)]
+struct TopRec {
+    name: String,
+    declared_len: usize,
+    fields: Vec<(String, Result<Value, String>)>,
+    ended: bool,
+}
+struct Top<'a>(&'a mut TopRec);
+struct TopStruct<'a>(&'a mut TopRec);
+impl<'a> SerializeStruct for TopStruct<'a> {
+    type Ok = ();
+    type Error = SerErr;
+    fn serialize_field<T: ?Sized + Serialize>(&mut self, key: &'static str, value: &T) -> Result<(), SerErr> {
+        self.0.fields.push((key.to_string(), serde_json::to_value(value).map_err(|e| e.to_string())));
+        Ok(())
+    }
+    fn end(self) -> Result<(), SerErr> { self.0.ended = true; Ok(()) }
+}
+fn not_struct<T>() -> Result<T, SerErr> { Err(SerErr("top level is not a struct".into())) }
+impl<'a> serde::Serializer for Top<'a> {
+    type Ok = ();
+    type Error = SerErr;
+    type SerializeSeq = Impossible<(), SerErr>;
+    type SerializeTuple = Impossible<(), SerErr>;
+    type SerializeTupleStruct = Impossible<(), SerErr>;
+    type SerializeTupleVariant = Impossible<(), SerErr>;
+    type SerializeMap = Impossible<(), SerErr>;
+    type SerializeStruct = TopStruct<'a>;
+    type SerializeStructVariant = Impossible<(), SerErr>;
+    fn serialize_bool(self, _: bool) -> Result<(), SerErr> { not_struct() }
+    fn serialize_i8(self, _: i8) -> Result<(), SerErr> { not_struct() }
+    fn serialize_i16(self, _: i16) -> Result<(), SerErr> { not_struct() }
+    fn serialize_i32(self, _: i32) -> Result<(), SerErr> { not_struct() }
+    fn serialize_i64(self, _: i64) -> Result<(), SerErr> { not_struct() }
+    fn serialize_u8(self, _: u8) -> Result<(), SerErr> { not_struct() }
+    fn serialize_u16(self, _: u16) -> Result<(), SerErr> { not_struct() }
+    fn serialize_u32(self, _: u32) -> Result<(), SerErr> { not_struct() }
+    fn serialize_u64(self, _: u64) -> Result<(), SerErr> { not_struct() }
+    fn serialize_f32(self, _: f32) -> Result<(), SerErr> { not_struct() }
+    fn serialize_f64(self, _: f64) -> Result<(), SerErr> { not_struct() }
+    fn serialize_char(self, _: char) -> Result<(), SerErr> { not_struct() }
+    fn serialize_str(self, _: &str) -> Result<(), SerErr> { not_struct() }
+    fn serialize_bytes(self, _: &[u8]) -> Result<(), SerErr> { not_struct() }
+    fn serialize_none(self) -> Result<(), SerErr> { not_struct() }
+    fn serialize_some<T: ?Sized + Serialize>(self, _: &T) -> Result<(), SerErr> { not_struct() }
+    fn serialize_unit(self) -> Result<(), SerErr> { not_struct() }
+    fn serialize_unit_struct(self, _: &'static str) -> Result<(), SerErr> { not_struct() }
+    fn serialize_unit_variant(self, _: &'static str, _: u32, _: &'static str) -> Result<(), SerErr> { not_struct() }
+    fn serialize_newtype_struct<T: ?Sized + Serialize>(self, _: &'static str, _: &T) -> Result<(), SerErr> { not_struct() }
+    fn serialize_newtype_variant<T: ?Sized + Serialize>(self, _: &'static str, _: u32, _: &'static str, _: &T) -> Result<(), SerErr> { not_struct() }
+    fn serialize_seq(self, _: Option<usize>) -> Result<Self::SerializeSeq, SerErr> { not_struct() }
+    fn serialize_tuple(self, _: usize) -> Result<Self::SerializeTuple, SerErr> { not_struct() }
+    fn serialize_tuple_struct(self, _: &'static str, _: usize) -> Result<Self::SerializeTupleStruct, SerErr> { not_struct() }
+    fn serialize_tuple_variant(self, _: &'static str, _: u32, _: &'static str, _: usize) -> Result<Self::SerializeTupleVariant, SerErr> { not_struct() }
+    fn serialize_map(self, _: Option<usize>) -> Result<Self::SerializeMap, SerErr> { not_struct() }
+    fn serialize_struct(self, name: &'static str, len: usize) -> Result<TopStruct<'a>, SerErr> {
+        self.0.name = name.to_string();
+        self.0.declared_len = len;
+        Ok(TopStruct(self.0))
+    }
+    fn serialize_struct_variant(self, _: &'static str, _: u32, _: &'static str, _: usize) -> Result<Self::SerializeStructVariant, SerErr> { not_struct() }
+}
+fn jv<T: Serialize>(x: &T) -> Result<Value, String> {
+    serde_json::to_value(x).map_err(|e| e.to_string())
+}
+fn sorted_nums(v: &Value) -> Option<Vec<u64>> {
+    let mut o: Vec<u64> = v.as_array()?.iter().map(|x| x.as_u64()).collect::<Option<Vec<_>>>()?;
+    o.sort();
+    Some(o)
+}
+fn serialize_case(out: &mut Out, sxs: &str, stx: &str, st: &ActorModelState<Named<TMsg>, Hist>) {
+    let mut rec = TopRec::default();
+    let r = catch_unwind(AssertUnwindSafe(|| st.serialize(Top(&mut rec))));
+    let ctx = format!("system {} state {}", sxs, stx);
+    match r {
+        Ok(Ok(())) => {}
+        Ok(Err(e)) => { out.v("serialize-shape", &format!("{}: {}", ctx, e)); return; }
+        Err(_) => { out.v("serialize-panic", &ctx); return; }
+    }
+    out.stat("serialize-states");
+    // law: the struct `ActorModelState` with these fields in this order, each serialised by its own impl
+    let want: Vec<(&str, Result<Value, String>)> = vec![
+        ("actor_states", jv(&st.actor_states)),
+        ("network", jv(&st.network)),
+        ("is_timer_set", jv(&st.timers_set)),
+        ("random_choices", jv(&st.random_choices)),
+        ("history", jv(&st.history)),
+    ];
+    let got: Vec<(&str, &Result<Value, String>)> = rec.fields.iter().map(|(k, v)| (k.as_str(), v)).collect();
+    let same = rec.name == "ActorModelState" && rec.ended && got.len() == want.len()
+        && got.iter().zip(&want).all(|((k1, v1), (k2, v2))| k1 == k2 && *v1 == v2);
+    if !same {
+        out.v("serialize-fields", &format!("{}: struct {:?} ended={} fields {:?}, expected the fields {:?} serialised by their own impls",
+            ctx, rec.name, rec.ended, rec.fields.iter().map(|(k, v)| format!("{}={}", k, match v { Ok(x) => x.to_string(), Err(e) => format!("ERR {}", e) })).collect::<Vec<_>>(),
+            want.iter().map(|(k, _)| *k).collect::<Vec<_>>()));
+    }
+    // the pieces, read independently of the serialisers where the wire form is plain
+    let f = |k: &str| rec.fields.iter().find(|(n, _)| n == k).and_then(|(_, v)| v.as_ref().ok());
+    let states: Vec<u64> = st.actor_states.iter().map(|s| s.0 as u64).collect();
+    if f("actor_states").and_then(|v| v.as_array()).map(|a| a.iter().map(|x| x.as_u64()).collect::<Option<Vec<_>>>()) != Some(Some(states)) {
+        out.v("serialize-actor-states", &format!("{}: {:?}", ctx, f("actor_states")));
+    }
+    if f("history").and_then(|v| v.as_array()).map(|a| a.iter().map(|x| x.as_u64()).collect::<Option<Vec<_>>>()) != Some(Some(st.history.iter().map(|x| *x as u64).collect())) {
+        out.v("serialize-history", &format!("{}: {:?}", ctx, f("history")));
+    }
+    let timers_ok = f("is_timer_set").and_then(|v| v.as_array()).map_or(false, |a| a.len() == st.timers_set.len() && a.iter().zip(&st.timers_set).all(|(j, ts)| {
+        let mut w: Vec<u64> = ts.iter().map(|t| t.0 as u64).collect(); w.sort(); sorted_nums(j) == Some(w) }));
+    if !timers_ok { out.v("serialize-timers", &format!("{}: {:?}", ctx, f("is_timer_set"))); }
+    let random_ok = f("random_choices").and_then(|v| v.as_array()).map_or(false, |a| a.len() == st.random_choices.len() && a.iter().zip(&st.random_choices).all(|(j, rc)| {
+        let m = match j.as_object().and_then(|o| if o.len() == 1 { o.get("map") } else { None }).and_then(|m| m.as_object()) { Some(m) => m, None => return false };
+        m.len() == rc.map.len() && rc.map.iter().all(|(k, cs)| m.get(k).and_then(|v| v.as_array()).map(|v| v.iter().map(|x| x.as_u64()).collect::<Option<Vec<_>>>()) == Some(Some(cs.iter().map(|c| c.0 as u64).collect())))
+    }));
+    if !random_ok { out.v("serialize-random", &format!("{}: {:?}", ctx, f("random_choices"))); }
+    // whole-value JSON: an object of exactly these pieces, or an error exactly when a piece has none
+    let whole = jv(st);
+    let all_ok = want.iter().all(|(_, v)| v.is_ok());
+    match (&whole, all_ok) {
+        (Ok(Value::Object(o)), true) => {
+            out.stat("serialize-json-ok");
+            let keys: Vec<&String> = o.keys().collect();
+            if keys.len() != 5 || o.contains_key("crashed") || !want.iter().all(|(k, v)| o.get(*k) == v.as_ref().ok()) {
+                out.v("serialize-json", &format!("{}: {}", ctx, whole.as_ref().unwrap()));
+            }
+        }
+        (Err(e), false) => {
+            out.stat("serialize-json-error-from-network-with-non-string-keys");
+            let first = want.iter().find_map(|(_, v)| v.as_ref().err()).unwrap();
+            if e != first { out.v("serialize-json-error", &format!("{}: {} vs first failing piece {}", ctx, e, first)); }
+        }
+        _ => out.v("serialize-json", &format!("{}: whole {:?} pieces-ok {}", ctx, whole.as_ref().map(|v| v.to_string()), all_ok)),
+    }
+    match &st.network {
+        Network::UnorderedDuplicating(set, last) => {
+            let ok = f("network").and_then(|v| v.get("UnorderedDuplicating")).and_then(|v| v.as_array()).map_or(false, |a| a.len() == 2
+                && a[0].as_array().map_or(false, |es| {
+                    let mut got: Vec<(u64, u64, u64)> = es.iter().filter_map(|e| Some((e.get("src")?.as_u64()?, e.get("dst")?.as_u64()?, e.get("msg")?.as_u64()?))).collect();
+                    got.sort();
+                    let mut w: Vec<(u64, u64, u64)> = set.iter().map(|e| (usize::from(e.src) as u64, usize::from(e.dst) as u64, e.msg.0 as u64)).collect();
+                    w.sort();
+                    es.len() == w.len() && got == w })
+                && a[1].is_null() == last.is_none());
+            if !ok { out.v("serialize-network", &format!("{}: {:?}", ctx, f("network"))); }
+            out.stat("serialize-net-duplicating");
+        }
+        n => out.stat(if n.len() == 0 { "serialize-net-keyed-empty" } else { "serialize-net-keyed-nonempty" }),
+    }
+}
+
+// ---------------------------------------------------------------------------------------------------------
+// section 3: network names
+
+fn net_tag(n: &Result<Network<TMsg>, String>) -> &'static str {
+    match n {
+        Ok(Network::Ordered(_)) => "ordered",
+        Ok(Network::UnorderedDuplicating(..)) => "dup",
+        Ok(Network::UnorderedNonDuplicating(_)) => "nondup",
+        Err(_) => "err",
+    }
+}
+fn network_names(out: &mut Out, r: &mut Rng, n_rand: usize) {
+    let names = match catch_unwind(|| Network::<TMsg>::names()) {
+        Ok(n) => n,
+        Err(_) => { out.v("net-names-panic", "Network::names()"); return; }
+    };
+    out.m("net-names", &sx::list(names.iter().map(|s| s.to_string())));
+    let parsed: Vec<Result<Network<TMsg>, String>> = names.iter().map(|s| s.parse::<Network<TMsg>>()).collect();
+    out.o(&format!("o-net-names {} {}", sx::list(names.iter().map(|s| s.to_string())), sx::list(parsed.iter().map(|p| net_tag(p).to_string()))));
+    // the same listing for other message types
+    if Network::<u8>::names() != names || Network::<RM>::names() != names { out.v("net-names-generic", "names() depends on the message type"); }
+    let mut cands: Vec<String> = names.iter().map(|s| s.to_string()).collect();
+    for k in NetKind::all() { cands.push(k.name().to_string()); } // hyphenated spellings: not names
+    let alphabet: Vec<char> = "abcdefghijklmnopqrstuvwxyzABCDEFGHIJKLMNOPQRSTUVWXYZ0123456789_-".chars().collect();
+    for _ in 0..n_rand {
+        let base = names[r.below(names.len())].to_string();
+        let mut cs: Vec<char> = base.chars().collect();
+        match r.below(8) {
+            0 => { let i = r.below(cs.len()); cs[i] = cs[i].to_ascii_uppercase(); }
+            1 => { let i = r.below(cs.len()); cs.remove(i); }
+            2 => { let i = r.below(cs.len() + 1); cs.insert(i, *r.pick(&alphabet)); }
+            3 => { let i = r.below(cs.len()); cs[i] = *r.pick(&alphabet); }
+            4 => { cs.truncate(r.below(cs.len()).max(1)); }
+            5 => { cs = (0..1 + r.below(12)).map(|_| *r.pick(&alphabet)).collect(); }
+            6 => { cs = cs.iter().map(|c| if *c == '_' { '-' } else { *c }).collect(); }
+            _ => {}
+        }
+        cands.push(cs.into_iter().collect());
+    }
+    for s in &cands {
+        let p = s.parse::<Network<TMsg>>();
+        let tag = net_tag(&p);
+        out.m(&format!("net-parse {}", s), tag);
+        out.stat(&format!("net-parse-{}", tag));
+        out.distinct(&("net", s));
+        match (&p, tag) {
+            (Err(e), _) => if *e != format!("unable to parse network name: {}", s) { out.v("net-parse-error-text", &format!("{:?}: {:?}", s, e)); },
+            (Ok(n), "ordered") => if *n != Network::new_ordered([]) { out.v("net-parse-not-empty", s); },
+            (Ok(n), "dup") => if *n != Network::new_unordered_duplicating([]) { out.v("net-parse-not-empty", s); },
+            (Ok(n), _) => if *n != Network::new_unordered_nonduplicating([]) { out.v("net-parse-not-empty", s); },
+        }
+        if let Ok(n) = &p {
+            if n.len() != 0 || n.iter_all().next().is_some() || n.iter_deliverable().next().is_some() { out.v("net-parse-not-empty", s); }
+        }
+    }
+    // strings that are not atoms of the wire format: harness-side law only
+    for s in ["", " ordered", "ordered ", "ordered\n", "unordered duplicating", "(ordered)"] {
+        match s.parse::<Network<TMsg>>() {
+            Err(e) if e == format!("unable to parse network name: {}", s) => out.stat("net-parse-err-non-atom"),
+            other => out.v("net-parse-non-atom", &format!("{:?}: {:?}", s, other.map(|n| net_tag(&Ok(n))))),
+        }
+    }
+}
+
+// ---------------------------------------------------------------------------------------------------------
+// section 4: actor.rs glue
+
+fn tcmd_to_command(c: &TCmd) -> Command<TMsg, TTimer, TRandom> {
+    match c {
+        TCmd::Send(d, m) => Command::Send(Id::from(*d), TMsg(*m)),
+        TCmd::SetTimer(t) => Command::SetTimer(TTimer(*t), model_timeout()),
+        TCmd::CancelTimer(t) => Command::CancelTimer(TTimer(*t)),
+        TCmd::ChooseRandom(k, cs) => Command::ChooseRandom(key_name(*k), cs.iter().map(|c| TRandom(*c)).collect()),
+    }
+}
+fn glue(out: &mut Out, r: &mut Rng, n: usize) {
+    // defaults of the trait: an actor that overrides nothing is a no-op
+    for _ in 0..n {
+        let a = Inert(r.below(5) as u8);
+        let id = Id::from(r.below(6));
+        let st = TState(r.below(5) as u8);
+        let mut cow = Cow::Borrowed(&st);
+        let mut o = AOut::<Inert>::new();
+        let which = r.below(3);
+        match which {
+            0 => a.on_msg(id, &mut cow, Id::from(r.below(6)), TMsg(r.below(4) as u8), &mut o),
+            1 => a.on_timeout(id, &mut cow, &TTimer(r.below(4) as u8), &mut o),
+            _ => a.on_random(id, &mut cow, &TRandom(r.below(4) as u8), &mut o),
+        }
+        if !matches!(cow, Cow::Borrowed(_)) || !o.is_empty() || *cow != st { out.v("default-handler-not-noop", &format!("handler {} state {:?} out {:?}", which, cow, o)); }
+        if a.name() != "" { out.v("default-name", &a.name()); }
+        out.stat(["default-on-msg", "default-on-timeout", "default-on-random"][which]);
+    }
+    // ... and through the model: deliveries to inert actors change nothing (no step on unordered networks, the
+    // message is consumed on ordered ones), format_step says UNCHANGED with no output, labels are bare indices
+    for _ in 0..(n / 8).max(3) {
+        let na = 1 + r.below(3);
+        let envs: Vec<(usize, usize, u8)> = (0..1 + r.below(3)).map(|_| (r.below(na), r.below(na), r.below(3) as u8)).collect();
+        let kind = *r.pick(&NetKind::all());
+        let spec = SysSpec { kind, lossy: false, max_crashes: 0, hist: HistCfg { in_mode: 0, out_mode: 0 }, init_envs: envs.clone(), last: None, tables: vec![] };
+        let actors: Vec<Inert> = (0..na).map(|_| Inert(r.below(4) as u8)).collect();
+        let model: ActorModel<Inert, (), ()> = ActorModel::new((), ()).actors(actors.clone()).init_network(spec.network::<TMsg>());
+        let st = model.init_states().remove(0);
+        let mut acts = Vec::new();
+        model.actions(&st, &mut acts);
+        let ordered = kind == NetKind::Ordered;
+        let mut taken = Vec::new();
+        for a in acts {
+            if let ActorModelAction::Deliver { dst, .. } = &a {
+                let d = usize::from(*dst);
+                let ns = model.next_state(&st, a.clone());
+                if ns.is_some() != ordered { out.v("inert-deliver", &format!("{:?} network {}: next_state is_some={}", a, kind.name(), ns.is_some())); }
+                if let Some(s2) = &ns { if s2.actor_states != st.actor_states || s2.network.len() + 1 != st.network.len() { out.v("inert-deliver", &format!("{:?}: more than the message changed", a)); } }
+                let want = Some(format!("OUT: []\n\nUNCHANGED: {}\n", pretty_state(actors[d].0)));
+                if model.format_step(&st, a.clone()) != want { out.v("inert-format-step", &format!("{:?}", a)); }
+                out.stat("inert-deliveries");
+                if ordered && taken.is_empty() { taken.push(a); }
+            }
+        }
+        if let Some(p) = Path::from_actions(&model, st.clone(), taken.iter()) {
+            let svg = model.as_svg(p).unwrap_or_default();
+            for i in 0..na { if count(&svg, &format!("class='svg-actor-label'>{}</text>", i)) != 1 { out.v("inert-svg-label", &format!("actor {} of {}", i, na)); } }
+            if count(&svg, "class='svg-event-line'") != taken.len() { out.v("inert-svg-arrows", &svg); }
+            out.stat("inert-svg");
+        } else { out.v("inert-path", "a one-step path could not be built"); }
+    }
+    // `()` and `Vec<(Id, Msg)>` actors
+    {
+        let mut o = AOut::<()>::new();
+        ().on_start(Id::from(0), &mut o);
+        let mut cow = Cow::Borrowed(&());
+        ().on_msg(Id::from(0), &mut cow, Id::from(1), (), &mut o);
+        ().on_timeout(Id::from(0), &mut cow, &(), &mut o);
+        ().on_random(Id::from(0), &mut cow, &(), &mut o);
+        if !o.is_empty() || !matches!(cow, Cow::Borrowed(_)) || ().name() != "" { out.v("unit-actor", "the () actor is not inert / named"); }
+        let m: ActorModel<(), (), ()> = ActorModel::new((), ()).actor(()).actor(());
+        let st = m.init_states().remove(0);
+        let mut acts = Vec::new();
+        m.actions(&st, &mut acts);
+        if !acts.is_empty() || st.actor_states.len() != 2 { out.v("unit-actor", "a system of () actors has actions"); }
+        match Path::from_actions(&m, st, Vec::new().iter()).and_then(|p| m.as_svg(p)) {
+            Some(svg) if count(&svg, "class='svg-actor-label'>0</text>") == 1 && count(&svg, "class='svg-actor-label'>1</text>") == 1 && svg.ends_with("</svg>\n") => out.stat("unit-actor-svg"),
+            other => out.v("unit-actor-svg", &format!("{:?}", other)),
+        }
+    }
+    for _ in 0..n {
+        let script: Vec<(Id, u8)> = (0..r.below(4)).map(|_| (Id::from(r.below(4)), r.below(9) as u8)).collect();
+        if Actor::name(&script) != "" { out.v("vec-actor-name", &Actor::name(&script)); }
+        let mut o = AOut::<Vec<(Id, u8)>>::new();
+        let s0 = script.on_start(Id::from(0), &mut o);
+        let want = script.first().map(|(d, m)| format!("[Send({:?}, {})]", d, m)).unwrap_or("[]".into());
+        if format!("{:?}", o) != want || s0 != script.len().min(1) { out.v("vec-actor-start", &format!("{:?} -> {} {:?}", script, s0, o)); }
+        // timeouts / random choices are the trait defaults
+        let mut cow = Cow::Borrowed(&s0);
+        let mut o2 = AOut::<Vec<(Id, u8)>>::new();
+        script.on_timeout(Id::from(0), &mut cow, &(), &mut o2);
+        script.on_random(Id::from(0), &mut cow, &(), &mut o2);
+        if !o2.is_empty() || !matches!(cow, Cow::Borrowed(_)) { out.v("vec-actor-defaults", &format!("{:?}", script)); }
+        out.stat("vec-actor");
+    }
+    // names through Choice in every position
+    for _ in 0..n {
+        let nm = gen_name(r);
+        let t = Arc::new(Table::default());
+        let mk = |name: &str| Named::<TMsg> { inner: TableActor::new(t.clone(), None), name: name.to_string() };
+        let other = "other";
+        let got: Vec<(String, &str)> = vec![
+            (Choice::<Named<TMsg>, Never>::new(mk(&nm)).name(), "O"),
+            (Choice::<Named<TMsg>, Named<TMsg>>::L(mk(&nm)).name(), "L"),
+            (Choice::<Named<TMsg>, Named<TMsg>>::R(mk(&nm)).name(), "R"),
+            (Choice::<Named<TMsg>, Choice<Named<TMsg>, Choice<Named<TMsg>, Never>>>::R(Choice::L(mk(&nm))).name(), "RL"),
+            (Choice::<Named<TMsg>, Choice<Named<TMsg>, Choice<Named<TMsg>, Never>>>::R(Choice::R(Choice::new(mk(&nm)))).name(), "RRO"),
+            (Choice::<Choice<Named<TMsg>, Never>, Named<TMsg>>::L(Choice::new(mk(&nm))).name(), "LO"),
+            (TableActor::<TMsg>::new(t.clone(), None).name(), "table"),
+        ];
+        for (g, pos) in &got {
+            let want = if *pos == "table" { "table" } else { nm.as_str() };
+            if g != want { out.v("choice-name", &format!("position {}: {:?} expected {:?}", pos, g, want)); }
+            out.stat(&format!("choice-name-{}", pos));
+        }
+        let _ = other;
+        out.distinct(&("name", &nm));
+    }
+    // Id::vec_from
+    for _ in 0..n {
+        let v: Vec<usize> = (0..r.below(8)).map(|_| if r.chance(1, 6) { r.next() as usize } else { r.below(10) }).collect();
+        let want: Vec<Id> = v.iter().map(|x| Id::from(*x)).collect();
+        if Id::vec_from(v.clone()) != want || Id::vec_from(want.clone()) != want { out.v("id-vec-from", &format!("{:?}", v)); }
+        let k = r.below(7);
+        if Id::vec_from(0..k) != (0..k).map(Id::from).collect::<Vec<_>>() { out.v("id-vec-from-range", &k.to_string()); }
+        if Id::vec_from(want.iter().copied()).iter().map(|i| usize::from(*i)).collect::<Vec<_>>() != v { out.v("id-vec-from-roundtrip", &format!("{:?}", v)); }
+        out.stat("id-vec-from");
+    }
+    // majority / peer_ids / model_peers
+    for c in 0..n * 4 {
+        let k = match r.below(10) { 0 => usize::MAX - r.below(3), 1 => r.next() as usize, 2 => r.below(1 << 20), _ => r.below(40) };
+        let k = if c < 40 { c } else { k };
+        match catch_unwind(|| majority(k)) {
+            Ok(m) => { out.m(&format!("majority {}", k), &m.to_string()); out.o(&format!("o-majority {} {}", k, m)); }
+            Err(_) => out.m(&format!("majority {}", k), "panic"),
+        }
+        out.stat(if k % 2 == 0 { "majority-even" } else { "majority-odd" });
+        out.distinct(&("maj", k));
+    }
+    for c in 0..n * 4 {
+        let len = r.below(9);
+        let span = 1 + r.below(6);
+        let ids: Vec<usize> = (0..len).map(|_| r.below(span)).collect();
+        let s = r.below(span + 1);
+        let idv: Vec<Id> = ids.iter().map(|x| Id::from(*x)).collect();
+        let res: Vec<usize> = peer_ids(Id::from(s), &idv).map(|i| usize::from(*i)).collect();
+        out.m(&format!("peer-ids {} {}", s, sx::nums(&ids)), &sx::nums(&res));
+        out.o(&format!("o-peer-ids {} {} {}", s, sx::nums(&ids), sx::nums(&res)));
+        // the same helper on another id type
+        let res2: Vec<usize> = peer_ids(s, &ids).copied().collect();
+        if res2 != res { out.v("peer-ids-generic", &format!("{} {:?}", s, ids)); }
+        out.stat(match ids.iter().filter(|x| **x == s).count() { 0 => "peer-ids-self-absent", 1 => "peer-ids-self-once", _ => "peer-ids-self-repeated" });
+        out.distinct(&("peer", s, &ids));
+        if c < 2 { out.sample(&format!("peer_ids self={} ids={:?} -> {:?}", s, ids, res)); }
+    }
+    for _ in 0..n * 2 {
+        let k = r.below(13);
+        let i = r.below(k + 3);
+        let res: Vec<usize> = model_peers(i, k).into_iter().map(usize::from).collect();
+        out.m(&format!("model-peers {} {}", i, k), &sx::nums(&res));
+        out.o(&format!("o-model-peers {} {} {}", i, k, sx::nums(&res)));
+        out.stat(if i < k { "model-peers-member" } else { "model-peers-outsider" });
+        out.distinct(&("mpeers", i, k));
+    }
+    // model_timeout: the documented arbitrary (empty, zero) range
+    let mt = model_timeout();
+    if mt != (Duration::from_micros(0)..Duration::from_micros(0)) || !mt.is_empty() || mt.start != Duration::ZERO { out.v("model-timeout", &format!("{:?}", mt)); }
+    // Out helpers
+    let p = GenParams::default();
+    for _ in 0..n {
+        let cmds: Vec<TCmd> = (0..r.below(6)).map(|_| gen_cmd(r, &p, 3)).collect();
+        let want = out_dbg(&cmds);
+        // through the recording methods
+        let mut a = AOut::<TableActor<TMsg>>::default();
+        if !a.is_empty() || format!("{:?}", a) != "[]" { out.v("out-default", &format!("{:?}", a)); }
+        for c in &cmds {
+            match c {
+                TCmd::Send(d, m) => a.send(Id::from(*d), TMsg(*m)),
+                TCmd::SetTimer(t) => a.set_timer(TTimer(*t), model_timeout()),
+                TCmd::CancelTimer(t) => a.cancel_timer(TTimer(*t)),
+                TCmd::ChooseRandom(k, cs) if cs.is_empty() => a.remove_random(key_name(*k)),
+                TCmd::ChooseRandom(k, cs) => a.choose_random(key_name(*k), cs.iter().map(|c| TRandom(*c)).collect()),
+            }
+        }
+        // through FromIterator
+        let b: AOut<TableActor<TMsg>> = cmds.iter().map(tcmd_to_command).collect();
+        if format!("{:?}", a) != want || format!("{:?}", b) != want || a.len() != cmds.len() || b.len() != cmds.len() {
+            out.v("out-from-iter", &format!("cmds {} recorded {:?} collected {:?}", cmds_sx(&cmds), a, b));
+        }
+        // append moves everything, in order, behind what is there; into_iter gives the commands back in order
+        let mut c = AOut::<Named<TMsg>>::new();
+        c.send(Id::from(9), TMsg(9));
+        let mut b = b;
+        c.append(&mut b);
+        let want2 = format!("[{}]", std::iter::once("Send(Id(9), TMsg(9))".to_string()).chain(cmds.iter().map(cmd_dbg)).collect::<Vec<_>>().join(", "));
+        let back: Vec<String> = c.into_iter().map(|x| format!("{:?}", x)).collect();
+        if !b.is_empty() || format!("[{}]", back.join(", ")) != want2 { out.v("out-append", &format!("cmds {}", cmds_sx(&cmds))); }
+        // broadcast = one send per recipient, in order
+        let ids: Vec<Id> = (0..r.below(4)).map(|_| Id::from(r.below(5))).collect();
+        let mut d = AOut::<TableActor<TMsg>>::new();
+        d.broadcast(&ids, &TMsg(7));
+        if format!("{:?}", d) != format!("[{}]", ids.iter().map(|i| format!("Send({:?}, TMsg(7))", i)).collect::<Vec<_>>().join(", ")) { out.v("out-broadcast", &format!("{:?}", ids)); }
+        out.stat("out-helpers");
+        out.stat_n("out-helper-commands", cmds.len() as u64);
+    }
+    // Timers::default
+    let td: Timers<TTimer> = Timers::default();
+    if td != Timers::new() || td.iter().next().is_some() { out.v("timers-default", "Timers::default() is not the empty set"); }
+}
+
+// ---------------------------------------------------------------------------------------------------------
+// section 5: register harness clients
+
+fn client_sx(awaiting: Option<u64>, op_count: u64, sends: Vec<String>) -> String {
+    format!("({} {} ({}))", sx::opt(&awaiting, |x| x.to_string()), op_count, sends.join(" "))
+}
+fn register_clients(out: &mut Out, r: &mut Rng, n: usize) {
+    let t = Arc::new(Table::default());
+    for c in 0..n * 3 {
+        let p = r.below(4);
+        let sc = match r.below(8) { 0 => 0, _ => 1 + r.below(5) };
+        let idx = match r.below(10) {
+            0..=2 => r.below(sc.max(1)),               // before the servers
+            3 => sc + 180 + r.below(90),               // value near / beyond u8
+            4 => sc + 256 * (1 + r.below(3)) + r.below(200),
+            5 => (1usize << 40) + r.below(1000),
+            _ => sc + r.below(6),
+        };
+        // register
+        let res_r = catch_unwind(|| {
+            let a: RegisterActor<Named<RM>> = RegisterActor::Client { put_count: p, server_count: sc };
+            let mut o = AOut::new();
+            let s = a.on_start(Id::from(idx), &mut o);
+            let sends: Vec<String> = o.iter().map(|c| match c {
+                Command::Send(d, RegisterMsg::Put(q, v)) => format!("({} {} {})", usize::from(*d), q, *v as u32),
+                other => format!("unexpected:{:?}", other).replace(' ', "_"),
+            }).collect();
+            match s {
+                RegisterActorState::Client { awaiting, op_count } => client_sx(awaiting, op_count, sends),
+                RegisterActorState::Server(_) => "server-state".into(),
+            }
+        }).unwrap_or_else(|_| "panic".into());
+        let res_w = catch_unwind(|| {
+            let a: WORegisterActor<Named<WM>> = WORegisterActor::Client { put_count: p, server_count: sc };
+            let mut o = AOut::new();
+            let s = a.on_start(Id::from(idx), &mut o);
+            let sends: Vec<String> = o.iter().map(|c| match c {
+                Command::Send(d, WORegisterMsg::Put(q, v)) => format!("({} {} {})", usize::from(*d), q, *v as u32),
+                other => format!("unexpected:{:?}", other).replace(' ', "_"),
+            }).collect();
+            match s {
+                WORegisterActorState::Client { awaiting, op_count } => client_sx(awaiting, op_count, sends),
+                WORegisterActorState::Server(_) => "server-state".into(),
+            }
+        }).unwrap_or_else(|_| "panic".into());
+        out.m(&format!("client-start r {} {} {}", p, sc, idx), &res_r);
+        out.m(&format!("client-start w {} {} {}", p, sc, idx), &res_w);
+        out.o(&format!("o-client-start {} {} {} {}", p, sc, idx, res_r));
+        out.o(&format!("o-client-start {} {} {} {}", p, sc, idx, res_w));
+        out.stat(if res_r == "panic" { if idx < sc { "client-start-panic-before-servers" } else { "client-start-panic-other" } } else if p == 0 { "client-start-idle" } else { "client-start-put" });
+        out.distinct(&("client", p, sc, idx));
+        if c < 2 { out.sample(&format!("client put_count={} server_count={} index={} -> {}", p, sc, idx, res_r)); }
+    }
+    // whole models: start-up panics exactly when some client sits before a server
+    for _ in 0..n {
+        let sc = 1 + r.below(3);
+        let total = sc + 1 + r.below(2);
+        let mut slots: Vec<bool> = (0..total).map(|i| i < sc).collect(); // true = server
+        if r.chance(1, 2) { r.shuffle(&mut slots); }
+        let expect_panic = slots.iter().enumerate().any(|(i, s)| !*s && i < sc);
+        let actors: Vec<RegisterActor<Named<RM>>> = slots.iter().map(|s| if *s { RegisterActor::Server(Named { inner: TableActor::new(t.clone(), None), name: String::new() }) } else { RegisterActor::Client { put_count: 1, server_count: sc } }).collect();
+        let model: ActorModel<RegisterActor<Named<RM>>, (), ()> = ActorModel::new((), ()).actors(actors);
+        let res = catch_unwind(AssertUnwindSafe(|| model.init_states()));
+        if res.is_err() != expect_panic { out.v("register-model-start", &format!("slots {:?} (true=server), server_count {}: panicked={} expected={}", slots, sc, res.is_err(), expect_panic)); }
+        out.stat(if expect_panic { "register-model-start-panics" } else { "register-model-starts" });
+        // labels of the diagram: "i Server" (nameless server) / "i Client"
+        if let Ok(mut sts) = res {
+            let st = sts.remove(0);
+            if let Some(svg) = Path::from_actions(&model, st, Vec::new().iter()).and_then(|p| model.as_svg(p)) {
+                for (i, s) in slots.iter().enumerate() {
+                    if count(&svg, &format!("class='svg-actor-label'>{} {}</text>", i, if *s { "Server" } else { "Client" })) != 1 { out.v("register-svg-label", &format!("actor {} of {:?}", i, slots)); }
+                }
+                out.stat("register-svg");
+            } else { out.v("register-svg", "no svg for the initial path"); }
+        }
+    }
+    // names
+    for _ in 0..n {
+        let nm = gen_name(r);
+        let inner = |name: &str| Named::<RM> { inner: TableActor::new(t.clone(), None), name: name.to_string() };
+        let innerw = |name: &str| Named::<WM> { inner: TableActor::new(t.clone(), None), name: name.to_string() };
+        let (p, sc) = (r.below(3), r.below(4));
+        let checks: Vec<(String, String, &str)> = vec![
+            (RegisterActor::<Named<RM>>::Client { put_count: p, server_count: sc }.name(), "Client".into(), "register-client"),
+            (RegisterActor::Server(inner(&nm)).name(), if nm.is_empty() { "Server".into() } else { nm.clone() }, "register-server"),
+            (WORegisterActor::<Named<WM>>::Client { put_count: p, server_count: sc }.name(), "Client".into(), "wo-client"),
+            (WORegisterActor::Server(innerw(&nm)).name(), nm.clone(), "wo-server"),
+            (ActorWrapper::with_default_timeout(inner(&nm)).name(), nm.clone(), "orl-wrapper"),
+        ];
+        for (g, w, k) in checks {
+            if g != w { out.v("adapter-name", &format!("{}: {:?} expected {:?}", k, g, w)); }
+            out.stat(&format!("name-{}{}", k, if nm.is_empty() { "-nameless" } else { "" }));
+        }
+    }
+    // timeouts and random choices never concern a client; an actor handed a state of the other variant ignores it
+    for _ in 0..n * 2 {
+        let log = new_log();
+        let srv = Named::<RM> { inner: TableActor::new(Arc::new(gen_table(r, &GenParams::default(), 2)), Some(log.clone())), name: String::new() };
+        let srvw = Named::<WM> { inner: TableActor::new(srv.inner.table.clone(), Some(log.clone())), name: String::new() };
+        let client_actor = r.chance(2, 3);
+        let client_state = if client_actor { r.chance(3, 4) } else { true };
+        let aw = if r.chance(1, 2) { Some(r.below(9) as u64) } else { None };
+        let oc = r.below(4) as u64;
+        let (p, sc) = (r.below(3), 1 + r.below(3));
+        let id = Id::from(r.below(5));
+        let timeout = r.chance(1, 2);
+        let (tm, rd) = (TTimer(r.below(3) as u8), TRandom(r.below(3) as u8));
+        let what = format!("{} actor, {} state, {}", if client_actor { "client" } else { "server" }, if client_state { "client" } else { "server" }, if timeout { "timeout" } else { "random" });
+        {
+            let a: RegisterActor<Named<RM>> = if client_actor { RegisterActor::Client { put_count: p, server_count: sc } } else { RegisterActor::Server(srv.clone()) };
+            let s: RegisterActorState<TState, u64> = if client_state { RegisterActorState::Client { awaiting: aw, op_count: oc } } else { RegisterActorState::Server(TState(r.below(3) as u8)) };
+            let mut cow = Cow::Borrowed(&s);
+            let mut o = AOut::new();
+            if timeout { a.on_timeout(id, &mut cow, &tm, &mut o) } else { a.on_random(id, &mut cow, &rd, &mut o) }
+            if !matches!(cow, Cow::Borrowed(_)) || !o.is_empty() || !take_log(&log).is_empty() { out.v("register-client-arm-not-noop", &what); }
+        }
+        {
+            let a: WORegisterActor<Named<WM>> = if client_actor { WORegisterActor::Client { put_count: p, server_count: sc } } else { WORegisterActor::Server(srvw.clone()) };
+            let s: WORegisterActorState<TState, u64> = if client_state { WORegisterActorState::Client { awaiting: aw, op_count: oc } } else { WORegisterActorState::Server(TState(r.below(3) as u8)) };
+            let mut cow = Cow::Borrowed(&s);
+            let mut o = AOut::new();
+            if timeout { a.on_timeout(id, &mut cow, &tm, &mut o) } else { a.on_random(id, &mut cow, &rd, &mut o) }
+            if !matches!(cow, Cow::Borrowed(_)) || !o.is_empty() || !take_log(&log).is_empty() { out.v("wo-register-client-arm-not-noop", &what); }
+        }
+        out.stat(&format!("client-arm: {}", what));
+    }
+}
+
+// ---------------------------------------------------------------------------------------------------------
+// section 6: ordered reliable link, a wrapped actor's own timer
+
+type W = ActorWrapper<TableActor<TMsg>>;
+fn nums_in(s: &str) -> Vec<u64> {
+    let mut v = Vec::new();
+    let mut cur: Option<u64> = None;
+    for c in s.chars() {
+        if let Some(d) = c.to_digit(10) { cur = Some(cur.unwrap_or(0) * 10 + d as u64); } else if let Some(x) = cur.take() { v.push(x); }
+    }
+    if let Some(x) = cur { v.push(x); }
+    v
+}
+fn section<'a>(dbg: &'a str, name: &str) -> &'a str {
+    let key = format!("{}: {{", name);
+    let i = dbg.find(&key).unwrap_or_else(|| panic!("field {} not found in {}", name, dbg)) + key.len();
+    let j = dbg[i..].find('}').expect("closing brace") + i;
+    &dbg[i..j]
+}
+/// the link state read from its Debug rendering (the fields are private)
+#[derive(Clone, Debug, PartialEq, Eq)]
+struct Link {
+    next_send: BTreeMap<u64, u64>,
+    pending: BTreeMap<(u64, u64), u64>,
+    last_delivered: BTreeMap<u64, u64>,
+    wrapped: u64,
+}
+fn link_of<S: std::fmt::Debug>(s: &S) -> Link {
+    let d = format!("{:?}", s);
+    let ns = nums_in(section(&d, "next_send_seqs"));
+    let pa = nums_in(section(&d, "msgs_pending_ack"));
+    let ld = nums_in(section(&d, "last_delivered_seqs"));
+    let wi = d.find("wrapped_state: ").expect("wrapped_state") + "wrapped_state: ".len();
+    let ws = nums_in(&d[wi..]);
+    assert!(ns.len() % 2 == 0 && pa.len() % 3 == 0 && ld.len() % 2 == 0 && ws.len() == 1, "unexpected Debug shape: {}", d);
+    Link {
+        next_send: ns.chunks(2).map(|c| (c[0], c[1])).collect(),
+        pending: pa.chunks(3).map(|c| ((c[0], c[1]), c[2])).collect(),
+        last_delivered: ld.chunks(2).map(|c| (c[0], c[1])).collect(),
+        wrapped: ws[0],
+    }
+}
+fn orl_user_timer(out: &mut Out, r: &mut Rng, n: usize) {
+    let mut lost_reported = 0;
+    for c in 0..n {
+        let n_actors = 2 + r.below(3);
+        // a wrapped actor that only sends (the link supports nothing else), with timeout rows of its own
+        let p = GenParams { use_timers: false, use_random: false, ghost_dst: false, density: 60, ..GenParams::default() };
+        let mut tab = gen_table(r, &p, n_actors);
+        let n_states = 1 + tab.msg.keys().map(|k| k.0).chain(std::iter::once(tab.start.0)).max().unwrap_or(0);
+        let unsupported = r.chance(1, 10);
+        for s in 0..n_states {
+            for t in 0..3u8 {
+                if r.chance(3, 4) {
+                    let ns = if r.chance(3, 5) { Some(r.below(n_states as usize + 1) as u8) } else { None };
+                    let k = match r.below(6) { 0 | 1 => 0, 2 | 3 => 1, 4 => 2, _ => 3 };
+                    let mut cmds: Vec<TCmd> = (0..k).map(|_| TCmd::Send(r.below(n_actors), r.below(3) as u8)).collect();
+                    if unsupported && r.chance(1, 2) { let at = r.below(cmds.len() + 1); cmds.insert(at, if r.chance(1, 2) { TCmd::SetTimer(t) } else { TCmd::CancelTimer(t) }); }
+                    tab.timeout.insert((s, t), Row { ns, cmds });
+                }
+            }
+        }
+        let tab = Arc::new(tab);
+        let log = new_log();
+        let w: W = ActorWrapper::with_default_timeout(TableActor::new(tab.clone(), Some(log.clone())));
+        let id = Id::from(r.below(n_actors));
+        // a link state with history: start-up sends, then some deliveries (in sequence, duplicates, gaps)
+        let mut o0 = AOut::<W>::new();
+        let mut st = w.on_start(id, &mut o0);
+        let mut next_seq: HashMap<usize, u64> = HashMap::new();
+        for _ in 0..r.below(5) {
+            let src = r.below(n_actors);
+            let e = next_seq.entry(src).or_insert(1);
+            let seq = match r.below(6) { 0 => e.saturating_sub(1).max(1), 1 => *e + 1, _ => *e };
+            if seq == *e { *e += 1; }
+            let mut cow = Cow::Borrowed(&st);
+            let mut o = AOut::<W>::new();
+            if r.chance(1, 6) { w.on_msg(id, &mut cow, Id::from(src), MsgWrapper::Ack(1 + r.below(3) as u64), &mut o); }
+            else { w.on_msg(id, &mut cow, Id::from(src), MsgWrapper::Deliver(seq, TMsg(r.below(3) as u8)), &mut o); }
+            st = cow.into_owned();
+        }
+        let before = link_of(&st);
+        let t = r.below(3) as u8;
+        take_log(&log);
+        let mut cow = Cow::Borrowed(&st);
+        let mut o = AOut::<W>::new();
+        let res = catch_unwind(AssertUnwindSafe(|| w.on_timeout(id, &mut cow, &TimerWrapper::User(TTimer(t)), &mut o)));
+        let lg = take_log(&log);
+        let ws = before.wrapped as u8;
+        let row = tab.timeout.get(&(ws, t));
+        let ctx = format!("table {} actor {} link {:?} user timer {}", tab.to_sx(), usize::from(id), before, t);
+        // (a) the wrapped handler ran once, with the same id, state and timer, on a borrowed state
+        let want_log = vec![Invocation { id: usize::from(id), ev: Ev::Timeout { state: ws, timer: t }, borrowed_in: true }];
+        if lg != want_log { out.v("orl-user-timer-not-forwarded", &format!("{}: wrapped calls {:?}", ctx, lg)); }
+        let (ns, cmds): (Option<u8>, Vec<TCmd>) = row.map(|r| (r.ns, r.cmds.clone())).unwrap_or((None, vec![]));
+        let noop = ns.is_none() && cmds.is_empty();
+        let unsupported_cmd = cmds.iter().any(|c| !matches!(c, TCmd::Send(..)));
+        if c < 2 { out.sample(&format!("orl user timer: {} -> row {:?}", ctx, row)); }
+        if noop {
+            out.stat("orl-user-timer-wrapped-noop");
+            if res.is_err() || !matches!(cow, Cow::Borrowed(_)) || !o.is_empty() { out.v("orl-user-timer-noop-changed-something", &ctx); }
+            continue;
+        }
+        if unsupported_cmd {
+            // the link cannot express a wrapped actor's timers / random choices: documented `todo!()`
+            out.stat("orl-user-timer-unsupported-command");
+            if res.is_ok() { out.v("orl-user-timer-unsupported-accepted", &ctx); }
+            continue;
+        }
+        if res.is_err() { out.v("orl-user-timer-panic", &ctx); continue; }
+        out.stat("orl-user-timer-effective");
+        out.stat(&format!("orl-user-timer-sends-{}", cmds.len()));
+        out.distinct(&("orl", tab.to_sx(), usize::from(id), format!("{:?}", before), t));
+        // (b) the sends go through the link: per-destination sequencers assigned in order, recorded as pending
+        let mut want = before.clone();
+        let mut want_out = Vec::new();
+        for cmd in &cmds {
+            if let TCmd::Send(d, m) = cmd {
+                let e = want.next_send.entry(*d as u64).or_insert(1);
+                let seq = *e;
+                *e += 1;
+                want.pending.insert((*d as u64, seq), *m as u64);
+                want_out.push(format!("Send(Id({}), Deliver({}, TMsg({})))", d, seq, m));
+            }
+        }
+        let after = link_of(&*cow);
+        if format!("{:?}", o) != format!("[{}]", want_out.join(", ")) { out.v("orl-user-timer-sends", &format!("{}: out {:?} expected [{}]", ctx, o, want_out.join(", "))); }
+        if after.next_send != want.next_send || after.pending != want.pending || after.last_delivered != want.last_delivered {
+            out.v("orl-user-timer-link-state", &format!("{}: after {:?} expected {:?}", ctx, after, want));
+        }
+        if !matches!(cow, Cow::Owned(_)) { out.v("orl-user-timer-state-not-owned", &ctx); }
+        // (c) the wrapped actor's state change is wrapped back
+        let want_ws = ns.unwrap_or(ws) as u64;
+        if want_ws != ws as u64 { out.stat("orl-user-timer-wrapped-state-changes"); }
+        if after.wrapped != want_ws {
+            out.stat("orl-user-timer-state-change-lost");
+            if lost_reported < 3 {
+                lost_reported += 1;
+                out.v("orl-user-timer-state-change-lost", &format!("{}: the wrapped actor's on_timeout set its state to {} (Cow::Owned) but the link state still wraps {}", ctx, want_ws, after.wrapped));
+            }
+        }
+    }
+}
+
 fn main() {
     quiet_panics();
     let mut out = Out::new();
+    out.max_samples = 10;
+    let mut r = Rng::new(seed());
+    let th = thorough();
+    let scale = if th { 10 } else { 1 };
+
+    // 1 + 2: presentation and serialisation on random systems
+    let n_sys = arg_u64("--systems", 160 * scale as u64) as usize;
+    let p = GenParams::default();
+    for i in 0..n_sys {
+        let mut rr = r.fork();
+        let mut q = p.clone();
+        match i % 3 {
+            0 => { q.actors = (1, 2); q.density = 35; q.max_cmds = 2; }
+            1 => { q.actors = (2, 3); q.max_crashes = (1, 2); }
+            _ => { q.density = 60; }
+        }
+        let mut spec = gen_sys(&mut rr, &q);
+        if i % 4 == 1 { spec.lossy = true; }
+        present_system(&mut out, &mut rr, &spec, 40, 300, 6, i < 2);
+    }
+    // 3
+    network_names(&mut out, &mut r.fork(), 300 * scale);
+    // 4
+    glue(&mut out, &mut r.fork(), 150 * scale);
+    // 5
+    register_clients(&mut out, &mut r.fork(), 150 * scale);
+    // 6
+    orl_user_timer(&mut out, &mut r.fork(), 600 * scale);
     out.finish();
 }
